@@ -5,7 +5,7 @@ CONSTANTS
   Kind = "nameaddr"
   Atoms <- AtomsKnownE
   Prefix <- PfxExpN
-  MaxLen = 15
+  MaxLen = 16
   Cfgs <- CfgsNA8
   Junk = 34
   EmitOn = TRUE
